@@ -124,13 +124,13 @@ GlvShort(e) ==
             /\ IModPos(IAdd(d[1], IMul(d[2], I(FALSE, Lambda(e)))), r) = BMod(k, r)
             /\ BBits(d[1].mag) <= (bits \div 2) + 2 /\ BBits(d[2].mag) <= (bits \div 2) + 2
 
-(* the rounding constants of the decomposition, v10 ~ v22 * 2^(bits+1) / det and v20 ~ v12 * 2^(bits+1) / det  *)
-(* with |det| = r: each is the floor or the ceiling of its defining quotient (signs are judged by GlvShort)     *)
+(* the rounding constants of the decomposition: v10 = round(v22 * 2^(bits+1) / det), |v20| = round(v12 * 2^(bits+1) / det) *)
+(* with |det| = r, i.e. within half a unit of the defining quotient (signs are judged by GlvShort)                      *)
 GlvRounding(e) ==
     e.endom = 1 =>
         LET r == Ord(e)  sh == BBits(Ord(e)) + 1 IN
-        /\ BLe(AbsDiff(BMul(BNorm(e.v10.d), r), BShl(BNorm(e.v22.d), sh)), r)
-        /\ BLe(AbsDiff(BMul(BNorm(e.v20.d), r), BShl(BNorm(e.v12.d), sh)), r)
+        /\ BLe(BShl(AbsDiff(BMul(BNorm(e.v10.d), r), BShl(BNorm(e.v22.d), sh)), 1), r)
+        /\ BLe(BShl(AbsDiff(BMul(BNorm(e.v20.d), r), BShl(BNorm(e.v12.d), sh)), 1), r)
 
 (* ---- constants of the hash-to-curve maps (derived when the curve is installed) ---- *)
 MapConstants(e) ==
